@@ -33,6 +33,9 @@ pub struct SourceSpec {
 	/// how often the stream future of this source returns `Pending` (`tokio::task::yield_now`) before it
 	/// delivers its tiles – lets an earlier source finish later than a later one
 	pub yields: u32,
+	/// coordinates whose lookup fails (an IO error after the source was opened); the source's own stream leaves
+	/// them out, as the default `get_bbox_tile_stream` of a reader does
+	pub fail: Vec<(u8, u32, u32)>,
 }
 
 #[derive(Debug)]
@@ -58,6 +61,9 @@ impl TilesReaderTrait for MemSource {
 		&self.tilejson
 	}
 	async fn get_tile_data(&self, coord: &TileCoord3) -> Result<Option<Blob>> {
+		if self.spec.fail.contains(&(coord.z, coord.x, coord.y)) {
+			anyhow::bail!("injected read error")
+		}
 		Ok(self.spec.tiles.get(&(coord.z, coord.x, coord.y)).map(|v| Blob::from(v.clone())))
 	}
 	async fn get_bbox_tile_stream(&self, bbox: TileBBox) -> TileStream {
@@ -67,6 +73,9 @@ impl TilesReaderTrait for MemSource {
 		}
 		let mut v = vec![];
 		for coord in bbox.iter_coords() {
+			if self.spec.fail.contains(&(coord.z, coord.x, coord.y)) {
+				continue;
+			}
 			if let Some(b) = self.spec.tiles.get(&(coord.z, coord.x, coord.y)) {
 				v.push((coord, Blob::from(b.clone())));
 			}
@@ -88,7 +97,7 @@ pub fn make_factory(dir: &Path, sources: Sources) -> PipelineFactory {
 				let spec = sources.lock().unwrap().get(&name).cloned().ok_or_else(|| anyhow::anyhow!("no source {name}"))?;
 				Ok(Box::new(MemSource {
 					spec: spec.clone(),
-					parameters: TilesReaderParameters::new(TileFormat::PBF, spec.compression, TileBBoxPyramid::new_full(4)),
+					parameters: TilesReaderParameters::new(TileFormat::PBF, spec.compression, TileBBoxPyramid::new_full(31)),
 					tilejson: TileJSON::default(),
 				}) as Box<dyn TilesReaderTrait>)
 			})
@@ -495,7 +504,7 @@ impl Runner {
 			}
 			_ => c.tile.clone(),
 		};
-		let sources: Sources = Arc::new(Mutex::new(HashMap::from([("src".to_string(), SourceSpec { tiles: HashMap::from([((3u8, 1u32, 2u32), stored)]), compression, yields: (self.n % 3) as u32 })])));
+		let sources: Sources = Arc::new(Mutex::new(HashMap::from([("src".to_string(), SourceSpec { tiles: HashMap::from([((3u8, 1u32, 2u32), stored)]), compression, yields: (self.n % 3) as u32, fail: vec![] })])));
 		let factory = make_factory(&self.dir, sources);
 		let s = |b: &[u8]| String::from_utf8(b.to_vec()).unwrap();
 		let vpl = format!(
@@ -681,6 +690,163 @@ fn emit_update(out: &mut Out, runner: &mut Runner, c: &UpdCase, compression: Til
 		}
 		OpResult::Panic(m) => out.oracle(false, &format!("C11 update: panic on a valid tile: {m}"), json!({"kind": "panic", "flags": flags, "table_duplicates": dup}), json!({"case": line})),
 		_ => out.oracle(false, &format!("C11 update: valid tile and data refused ({ans})"), json!({"kind": "refused", "flags": flags, "table_duplicates": dup}), json!({"case": line})),
+	}
+}
+
+
+// ------------------------------------------------------------------ faults, payload classes, reuse, path agreement
+
+pub fn compress_as(b: &[u8], c: TileCompression) -> Vec<u8> {
+	use std::io::Write;
+	match c {
+		TileCompression::Uncompressed => b.to_vec(),
+		TileCompression::Gzip => {
+			let mut e = flate2::write::GzEncoder::new(Vec::new(), flate2::Compression::fast());
+			e.write_all(b).unwrap();
+			e.finish().unwrap()
+		}
+		TileCompression::Brotli => {
+			let mut o = vec![];
+			{
+				let mut w = brotli::CompressorWriter::new(&mut o, 4096, 3, 20);
+				w.write_all(b).unwrap();
+			}
+			o
+		}
+	}
+}
+
+/// coordinates the vector operations are driven at: zoom 0, block / 32-sub-box borders, deep zooms
+pub const COORDS: &[(u8, u32, u32)] = &[(0, 0, 0), (3, 1, 2), (6, 31, 32), (6, 32, 31), (6, 63, 63), (9, 255, 256), (14, 8191, 8192), (20, 1048575, 0), (30, 1073741823, 536870912), (31, 2147483647, 2147483647)];
+
+/// a box of at most 3×3 tiles around the coordinate (crossing the 32-grid / 256-block border where the coordinate sits on one)
+pub fn box_around(c: (u8, u32, u32)) -> TileBBox {
+	let max = if c.0 == 0 { 0 } else { ((1u64 << c.0) - 1) as u32 };
+	TileBBox::new(c.0, c.1.saturating_sub(1), c.2.saturating_sub(1), c.1.saturating_add(1).min(max), c.2.saturating_add(1).min(max)).unwrap()
+}
+
+#[derive(Clone, Copy, Debug, PartialEq)]
+enum Fault {
+	None,
+	/// the source's lookup of the tile fails
+	ReadError,
+	/// the bytes are not what the declared compression says (plain in a gzip source, gzip in a brotli source, brotli in a plain source)
+	WrongCodec,
+}
+
+/// One operation object, used repeatedly: lookup, whole-box stream, lookup again, lookups of the neighbours.
+/// Judged: reuse gives the same bytes; every streamed tile equals its lookup and every successful lookup is streamed;
+/// a fault is reported by the lookup (never a tile), leaves the tile out of the stream and never panics.
+fn emit_paths(out: &mut Out, runner: &mut Runner, c: &UpdCase, rng: &mut Rng) {
+	let coord = *rng.pick(COORDS);
+	let fault = match rng.below(6) {
+		0 => Fault::ReadError,
+		1 => Fault::WrongCodec,
+		_ => Fault::None,
+	};
+	let declared = *rng.pick(&[TileCompression::Uncompressed, TileCompression::Gzip, TileCompression::Brotli]);
+	let actual = if fault == Fault::WrongCodec {
+		match declared {
+			TileCompression::Uncompressed => TileCompression::Brotli,
+			TileCompression::Gzip => TileCompression::Uncompressed,
+			TileCompression::Brotli => TileCompression::Gzip,
+		}
+	} else {
+		declared
+	};
+	let bbox = box_around(coord);
+	// neighbours: an empty tile (0 bytes), a one-byte payload that is no tile, a copy of the tile itself (identical duplicate)
+	let mut tiles = HashMap::from([((coord.0, coord.1, coord.2), compress_as(&c.tile, actual))]);
+	let others: Vec<TileCoord3> = bbox.iter_coords().filter(|k| (k.z, k.x, k.y) != coord).collect();
+	let payloads: [Vec<u8>; 3] = [vec![], vec![0x1a], c.tile.clone()];
+	for (k, p) in others.iter().zip(payloads.iter()) {
+		tiles.insert((k.z, k.x, k.y), compress_as(p, declared));
+	}
+	runner.n += 1;
+	let csv = format!("data{}.csv", runner.n % 8);
+	std::fs::write(runner.dir.join(&csv), csv_text(c)).unwrap();
+	let sources: Sources = Arc::new(Mutex::new(HashMap::from([(
+		"src".to_string(),
+		SourceSpec { tiles, compression: declared, yields: rng.below(3) as u32, fail: if fault == Fault::ReadError { vec![coord] } else { vec![] } },
+	)])));
+	let factory = make_factory(&runner.dir, sources);
+	let s = |b: &[u8]| String::from_utf8(b.to_vec()).unwrap();
+	let vpl = format!(
+		"from_container filename=src | vectortiles_update_properties data_source_path=\"{csv}\" layer_name=\"{}\" id_field_tiles=\"{}\" id_field_data=\"{}\" replace_properties={} remove_non_matching={} include_id={}",
+		s(&c.layer),
+		s(&c.id_tiles),
+		s(&c.id_data),
+		c.replace,
+		c.remove,
+		c.include_id
+	);
+	let key = format!("paths {coord:?} {fault:?} {declared:?} {}", case_line(c));
+	let nontrivial = c.header.contains(&c.id_data) || c.rows.is_empty();
+	out.eval(&key, nontrivial);
+	out.count(&format!("paths_fault_{fault:?}"));
+	out.count(&format!("paths_zoom_{}", coord.0));
+	let rt = &runner.rt;
+	let Ok(Ok(op)) = catch(|| rt.block_on(factory.operation_from_vpl(&vpl))) else { return };
+	let look = |k: &TileCoord3| -> OpResult {
+		match catch(|| rt.block_on(op.get_tile_data(k))) {
+			Ok(Ok(Some(b))) => OpResult::Tile(b.into_vec()),
+			Ok(Ok(None)) => OpResult::None,
+			Ok(Err(_)) => OpResult::Err,
+			Err(m) => OpResult::Panic(m),
+		}
+	};
+	let main = TileCoord3::new(coord.1, coord.2, coord.0).unwrap();
+	let first = look(&main);
+	let streamed = catch(|| rt.block_on(async { op.get_tile_stream(bbox.clone()).await.collect().await }));
+	let second = look(&main);
+	let detail = json!({"case": case_line(c), "coord": format!("{coord:?}"), "fault": format!("{fault:?}"), "declared": format!("{declared:?}")});
+	let sig = |kind: &str| json!({"kind": kind, "fault": format!("{fault:?}")});
+	let bytes = |r: &OpResult| match r {
+		OpResult::Tile(b) => Some(b.clone()),
+		_ => None,
+	};
+	// reuse
+	out.oracle(bytes(&first) == bytes(&second) && matches!(first, OpResult::Err) == matches!(second, OpResult::Err), "C11 paths: the second lookup on the same operation differs from the first", sig("reuse_differs"), detail.clone());
+	// faults are loud
+	if fault != Fault::None {
+		out.oracle(matches!(first, OpResult::Err), &format!("C11 paths: a source fault ({fault:?}) is not reported by get_tile_data"), sig("fault_not_reported"), detail.clone());
+	}
+	out.oracle(!matches!(first, OpResult::Panic(_)), "C11 paths: get_tile_data panics", sig("lookup_panic"), detail.clone());
+	// stream ↔ lookups, coordinate by coordinate
+	match streamed {
+		Err(m) => out.oracle(false, &format!("C11 paths: get_tile_stream panics: {}", trunc(&m, 120)), sig("stream_panic"), detail.clone()),
+		Ok(v) => {
+			let mut ok = true;
+			let mut why = String::new();
+			let mut seen: Vec<TileCoord3> = vec![];
+			for (k, b) in &v {
+				if seen.contains(k) {
+					ok = false;
+					why = format!("{k:?} streamed twice");
+				}
+				seen.push(k.clone());
+				if bytes(&look(k)).as_deref() != Some(b.as_slice()) {
+					ok = false;
+					why = format!("streamed tile at {k:?} differs from its lookup");
+				}
+			}
+			for k in bbox.iter_coords() {
+				if matches!(look(&k), OpResult::Tile(_)) && !seen.contains(&k) {
+					ok = false;
+					why = format!("lookup has a tile at {k:?}, the stream has not");
+				}
+			}
+			out.oracle(ok, &format!("C11 paths: stream and lookups disagree: {why}"), sig("stream_lookup_pair"), detail.clone());
+		}
+	}
+	// a tile without the named layer must come out exactly as plain re-encoding writes it
+	if fault == Fault::None {
+		if let (OpResult::Tile(b), Some(t)) = (&first, decode_tile(&c.tile)) {
+			if !t.layers.iter().any(|l| l.name == c.layer) {
+				let plain = real_roundtrip(&c.tile);
+				out.oracle(matches!(&plain, Ok(Ok(p)) if p == b), "C11 paths: tile without the named layer is not byte-identical to from_blob/to_blob", sig("untouched_bytes"), detail.clone());
+			}
+		}
 	}
 }
 
@@ -882,6 +1048,43 @@ non-trivial: C11p every case; C11d valid tiles; C11u cases where the expected ou
 	}
 	for c in &bupd {
 		emit_update(&mut out, &mut runner, c, TileCompression::Uncompressed, true);
+	}
+	// threshold sweep: string / geometry lengths and table / feature counts at the varint-width borders
+	let lens: &[usize] = if args.thorough() { &[0, 1, 2, 126, 127, 128, 129, 255, 256, 16382, 16383, 16384, 16385, 70000] } else { &[0, 1, 127, 128, 129, 16383, 16384] };
+	for &len in lens {
+		let t = ITile { layers: vec![sized_strings_layer(len), sized_tables_layer("roads", 2, 1)] };
+		emit_decode(&mut out, &encode_tile(&t, &PLAIN), Some(&t));
+		out.count("sweep_string_lengths");
+	}
+	let sizes: &[usize] = if args.thorough() { &[1, 2, 63, 64, 65, 127, 128, 129, 255, 256, 257, 1000, 16383, 16384, 16385] } else { &[1, 63, 64, 65, 127, 128, 129, 256, 300] };
+	for &n in sizes {
+		let t = ITile { layers: vec![sized_tables_layer("roads", n, 70), sized_tables_layer("water", 1, 1)] };
+		let bytes = encode_tile(&t, &PLAIN);
+		emit_decode(&mut out, &bytes, Some(&t));
+		out.count("sweep_table_sizes");
+		if n <= 1000 {
+			// the operation on it: k0 is the id field, feature 0 (k0 = 0) matches the row "0"; a second row matches the last feature
+			for flags in [0u8, 2, 4, 7] {
+				let c = UpdCase {
+					replace: flags & 4 != 0,
+					remove: flags & 2 != 0,
+					include_id: flags & 1 != 0,
+					layer: b"roads".to_vec(),
+					id_tiles: b"k0".to_vec(),
+					id_data: b"key".to_vec(),
+					header: vec![b"key".to_vec(), format!("k{}", n - 1).into_bytes(), b"brand_new".to_vec()],
+					rows: vec![vec![cell_of("0"), cell_of("x"), cell_of("1")], vec![cell_of("zz"), cell_of("12"), cell_of("")]],
+					tile: bytes.clone(),
+				};
+				emit_update(&mut out, &mut runner, &c, TileCompression::Uncompressed, true);
+			}
+		}
+	}
+	// faults after open, payload classes, reuse of the operation, stream ↔ lookup pairs, extreme coordinates
+	let np = args.n(400, 6000);
+	for i in 0..np {
+		let c = gen_update_case(&mut rng, i % 3 != 0);
+		emit_paths(&mut out, &mut runner, &c, &mut rng);
 	}
 	// decode / encode
 	let nd = args.n(3000, 40000);
